@@ -79,6 +79,8 @@ type Scenario struct {
 	Random *RandomSpec `json:"random,omitempty"`
 	// stress mode: free-running goroutines, no gate
 	Stress *StressSpec `json:"stress,omitempty"`
+	// a store that holds more than 4 GiB
+	Far bool `json:"far,omitempty"`
 }
 
 type RandomSpec struct {
@@ -879,6 +881,9 @@ func Replay(in []byte) any {
 	if sc.Stress != nil {
 		return stressRun(&sc)
 	}
+	if sc.Far {
+		return farRun(&sc)
+	}
 	out := &Out{ID: sc.ID}
 	nch := nchOf(sc.Init)
 	names := threadNames(sc.Init)
@@ -969,3 +974,49 @@ func availFor(np int) []uint16 {
 }
 
 var _ = rand.Int
+
+// farRun: one store that holds more than 4 GiB (260 mapped pieces of 16 MiB; only one block of each is touched, so
+// little memory is really used).  C03 at that size: what the store reports equals what the allocator counts, an
+// eviction pass brings it down to its target, deletion gives everything back.
+func farRun(sc *Scenario) any {
+	out := &Out{ID: sc.ID}
+	viol := func(key, what string) {
+		out.Violations = append(out.Violations, Viol{"C03", key, what, 0})
+	}
+	const psize = 16 << 20
+	const np = 260
+	base := alloc.Bytes()
+	ps := &piece.Pieces{}
+	ps.MetadataComplete(psize, int64(np)*psize)
+	blk := content.Range(uint64(sc.ID)+3, 0, CS)
+	for i := 0; i < np; i++ {
+		if _, _, err := ps.AddData(uint32(i), 0, blk, 1); err != nil {
+			out.Note = fmt.Sprintf("AddData(%d): %v", i, err)
+			ps.Del()
+			return out
+		}
+	}
+	held := alloc.Bytes() - base
+	if held != int64(np)*psize {
+		out.Note = fmt.Sprintf("the allocator counts %d bytes for %d pieces of %d", held, np, psize)
+		ps.Del()
+		return out
+	}
+	if got := ps.Bytes(); got != held {
+		viol("store-accounting", fmt.Sprintf("the store reports %d bytes while it holds %d pieces of %d bytes (%d bytes, as the allocator counts)", got, np, psize, held))
+	}
+	target := int64(64) * psize
+	var dropped int
+	ps.Expire(target, nil, func(uint32) { dropped++ })
+	if left := alloc.Bytes() - base; left > target {
+		viol("not-down-to-low-mark", fmt.Sprintf("an eviction pass with a target of %d bytes left %d bytes allocated (the store held %d)", target, left, held))
+	}
+	if got, left := ps.Bytes(), alloc.Bytes()-base; got != left {
+		viol("store-accounting", fmt.Sprintf("after the eviction pass the store reports %d bytes, the allocator counts %d", got, left))
+	}
+	ps.Del()
+	if left := alloc.Bytes() - base; left != 0 {
+		viol("leak-after-del", fmt.Sprintf("%d bytes still accounted after Del()", left))
+	}
+	return out
+}
